@@ -88,6 +88,7 @@ class FxCollector(Collector, IDecodable):
 
 
 LATE_MODULE = 'c18_late_models'
+FACADE_MODULE = 'c18_facade'       # a package facade: no attributes of its own, everything served by a module-level __getattr__
 
 
 def fx_provide(params):
@@ -205,7 +206,7 @@ def build_desc(case):
 
     def ent(d):
         if use_mod:
-            d['module'] = MOD
+            d['module'] = FACADE_MODULE if case.get('facade') else MOD
         return d
 
     nested_at = case.get('nested_at')
@@ -333,6 +334,11 @@ def decode_case(case):
         setattr(main, name, getattr(me, name))     # resolution target when the description omits "module"
     if case.get('hooks_in_main'):
         main.fx_hook = fx_hook_main                # the main script's own function of that name
+    if case.get('facade'):
+        import types
+        facade = types.ModuleType(FACADE_MODULE)
+        facade.__getattr__ = lambda name: getattr(sys.modules[MOD], name)      # PEP 562 lazy export
+        sys.modules[FACADE_MODULE] = facade
     tmp = tempfile.mkdtemp(prefix='c18-')
     try:
         f1 = os.path.join(tmp, 'desc.json')
@@ -516,6 +522,7 @@ def cases(tier):
                 if at.startswith('pre_s') or at.startswith('pre_g'):
                     out.append(dict(base, late_at=at))
             out.append(dict(base, hooks_in_main=True))
+            out.append(dict(base, facade=True))
             for hk in HOOK_KINDS:
                 out.append(dict(base, hook_kind=hk))
                 out.append(dict(base, hook_kind=hk, module_key=False))
